@@ -264,10 +264,17 @@ func init() {
 		Bound: func(tier string) string { return "k=2 focus units over the full (thorough) input alphabets in both tiers, 14 context skeletons, all visit orders" },
 		Assumptions: []string{
 			"table from the statement: absent ⇒ Default (then tested) regardless of Required; else exactly one required/not_nil iff required; else skipped (tests not run, destination not written)",
-			"Catch is excluded from this space (C05); typed nil pointers as input are outside the absent table",
+			"Catch is part of the alphabet only in the single-unit items (Default must win over Required with or without Catch); interactions of Catch with other nodes belong to C05; typed nil pointers as input are outside the absent table",
 		},
 		Items: func(tier string) []Item {
 			items := coreItemsFiltered("thorough", c04Scenario, func(a *Alpha) { a.NoCatch = true }, []int{0, 1}, 0, c04Keep)
+			// Default beats Required also when the node additionally has Catch: single-unit items with Catch in the alphabet
+			for _, it := range coreItemsFiltered("thorough", c04Scenario, nil, []int{0, 1}, 1, func(ns NamedSkel) bool {
+				return strings.HasPrefix(ns.Name, "P.") || ns.Name == "S2" || ns.Name == "L.Str" || ns.Name == "R.Str"
+			}) {
+				it.Name = "with-catch/" + it.Name
+				items = append(items, it)
+			}
 			items = append(items, Item{Name: "typed-maps", MaxDevs: -1, Run: c04TypedMapScenario})
 			return items
 		},
